@@ -1,19 +1,36 @@
 ----------------------------- MODULE MxjMapGen -----------------------------
 (***************************************************************************)
-(* Enumeration of abstract Maps by builder actions: the state is one Map,  *)
-(* a step adds one node anywhere (MxjValue!GrowSet).  TLC deduplicates by  *)
-(* fingerprint and explores in parallel; every distinct Map with at most   *)
-(* MaxNodes nodes over the given alphabet is a reachable state.            *)
+(* Enumeration of abstract Maps by builder actions.                        *)
+(*  plain mode (PairNodes = 0): the state is one Map, a step adds one node *)
+(*    anywhere (MxjValue!GrowSet); every distinct Map with at most         *)
+(*    MaxNodes nodes over the alphabet is a reachable state.               *)
+(*  pair mode (PairNodes = k > 0): two sub-Maps b1, b2 of at most k nodes  *)
+(*    grow independently and m = {"a": [b1, b2]} -- every PAIR of small    *)
+(*    Maps as sibling list members (about 2k+3 nodes), the shape in which  *)
+(*    state carried from one sibling to the next becomes visible.          *)
+(* TLC deduplicates by fingerprint and explores in parallel.               *)
 (***************************************************************************)
 EXTENDS MxjValue
 CONSTANTS Keys,       \* map keys
           Scalars,    \* set of scalar values (tagged records)
           Conts,      \* containers that may be added: subset of {EmptyMap, EmptyList}
           MaxList,    \* longest list
-          MaxNodes    \* bound on NodeCount (root map included)
-VARIABLE m
-GenInit == m = EmptyMap
-GenNext == /\ NodeCount(m) < MaxNodes
-           /\ m' \in GrowSet(m, Keys, Scalars, MaxList, Conts)
-GenSpec == GenInit /\ [][GenNext]_m
+          MaxNodes,   \* bound on NodeCount (root map included), plain mode
+          PairNodes   \* 0, or the bound on each sibling in pair mode
+VARIABLES m, b1, b2
+genvars == <<m, b1, b2>>
+Wrap(x, y) == VM("a" :> VL(<<x, y>>))
+GenInit == /\ b1 = EmptyMap /\ b2 = EmptyMap
+           /\ m = IF PairNodes = 0 THEN EmptyMap ELSE Wrap(EmptyMap, EmptyMap)
+GenNext == IF PairNodes = 0
+           THEN /\ NodeCount(m) < MaxNodes
+                /\ m' \in GrowSet(m, Keys, Scalars, MaxList, Conts)
+                /\ UNCHANGED <<b1, b2>>
+           ELSE \/ /\ NodeCount(b1) < PairNodes
+                   /\ b1' \in GrowSet(b1, Keys, Scalars, MaxList, Conts)
+                   /\ b2' = b2 /\ m' = Wrap(b1', b2)
+                \/ /\ NodeCount(b2) < PairNodes
+                   /\ b2' \in GrowSet(b2, Keys, Scalars, MaxList, Conts)
+                   /\ b1' = b1 /\ m' = Wrap(b1, b2')
+GenSpec == GenInit /\ [][GenNext]_genvars
 =============================================================================
